@@ -492,3 +492,502 @@ func c04NegateWhole(c *Ctx) {
 	c.R.Checkf(rule, "negation-applies-to-the-whole-selector@wrapNotPredicate", c.pos(f.Pos()), loops == 1 && !inLoop,
 		"the negation flag is not consulted inside the loop over the per-key conditions: `!f(k1: a, k2: b)` is !(k1(a) || k2(b)); applying it per key gives !k1(a) || !k2(b), which selects exactly the excluded nodes")
 }
+
+// C05 READTHENWRITE: io.Reader may return n > 0 together with io.EOF (or any
+// error).  In every Read/Write copy loop the data test (nr > 0 => write) comes
+// before any test of the read error.
+func c05ReadThenWrite(c *Ctx) {
+	const rule = "SHORTWRITE"
+	n := 0
+	for _, rel := range []string{"control", "component/sniffing"} {
+		for _, f := range units(c.P, rel, nil) {
+			info := f.Info()
+			g := f.Graph()
+			for _, b := range g.CFG.Blocks {
+				if !b.Live {
+					continue
+				}
+				for i, nd := range b.Nodes {
+					as, ok := nd.(*ast.AssignStmt)
+					if !ok || len(as.Lhs) != 2 || len(as.Rhs) != 1 {
+						continue
+					}
+					call, ok := as.Rhs[0].(*ast.CallExpr)
+					if !ok {
+						continue
+					}
+					if _, name, isM := methodCall(call); !isM || name != "Read" || len(call.Args) != 1 {
+						continue
+					}
+					nrId, ok1 := as.Lhs[0].(*ast.Ident)
+					erId, ok2 := as.Lhs[1].(*ast.Ident)
+					if !ok1 || !ok2 || nrId.Name == "_" || erId.Name == "_" {
+						continue
+					}
+					nr, er := info.ObjectOf(nrId), info.ObjectOf(erId)
+					// only loops that also write what they read
+					writes := false
+					ast.Inspect(f.Body, func(m ast.Node) bool {
+						if cl, ok := m.(*ast.CallExpr); ok {
+							if _, nm, isM := methodCall(cl); isM && nm == "Write" && len(cl.Args) == 1 {
+								if sl, ok := ast.Unparen(cl.Args[0]).(*ast.SliceExpr); ok && sl.High != nil {
+									if hid, ok := ast.Unparen(sl.High).(*ast.Ident); ok && info.ObjectOf(hid) == nr {
+										writes = true
+									}
+								}
+							}
+						}
+						return true
+					})
+					if !writes {
+						continue
+					}
+					n++
+					c.R.Saw(f)
+					mentions := func(obj types.Object) func(ast.Node) bool {
+						return func(m ast.Node) bool {
+							if m == ast.Node(as) {
+								return false
+							}
+							e, isExpr := m.(ast.Expr)
+							if !isExpr {
+								return false
+							}
+							hit := false
+							ast.Inspect(e, func(k ast.Node) bool {
+								if id, ok := k.(*ast.Ident); ok && info.ObjectOf(id) == obj {
+									hit = true
+								}
+								return true
+							})
+							return hit
+						}
+					}
+					bad, tr, reach := g.ReachesAvoiding(core.Point{B: b, I: i}.After(), mentions(nr), mentions(er))
+					construct := "data-handled-before-read-error@" + strings.TrimPrefix(f.Name, rel+".")
+					if !reach {
+						c.R.Checkf(rule, construct, c.pos(as.Pos()), true, "after %s the count %s is tested (and the bytes written) before the error %s is looked at", core.ExprStr(as.Rhs[0]), nrId.Name, erId.Name)
+					} else {
+						c.R.Checkf(rule, construct, c.pos(bad.Pos()), false, "after %s the read error %s is tested at %s (lines %s) before the count %s: a Read that returns the last bytes together with io.EOF (quic-go streams do) loses those bytes and the relay reports a clean end of stream", core.ExprStr(as.Rhs[0]), erId.Name, c.pos(bad.Pos()), traceStr(c.P, tr), nrId.Name)
+					}
+				}
+			}
+		}
+	}
+	c.R.Floor(rule+"/read-then-write", n, 3)
+}
+
+// C05 UNCONSUMED: when the first port-53 detection read fails nothing was
+// taken from the stream; the fast path then always reports handled=false so
+// that the buffered bytes and the connection go to the relay.
+func c05Unconsumed(c *Ctx) {
+	const rule = "CONSUME"
+	f := c.fn(rule, "control", "ControlPlane.handleTCPDnsFastPath")
+	if f == nil {
+		return
+	}
+	info := f.Info()
+	g := f.Graph()
+	read := nodeCalls(info, "control.readDnsMsgFromBufio")
+	var first *core.Point
+	for _, p := range g.Find(read) {
+		p := p
+		// first = reachable from entry without passing another read
+		if _, _, reach := g.ReachesAvoiding(g.Entry(), func(n ast.Node) bool { return read(n) && n != p.Node() }, func(n ast.Node) bool { return n == p.Node() }); reach {
+			first = &p
+		}
+	}
+	if first == nil {
+		c.R.Unresolved(rule, "handleTCPDnsFastPath: first readDnsMsgFromBufio")
+		return
+	}
+	cond, tr, _, ok := g.Cond(first.B)
+	if !ok || !strings.Contains(core.ExprStr(cond), "err != nil") {
+		c.R.Checkf(rule, "failed-detection-falls-through-to-the-relay", c.pos(first.Node().Pos()), false, "the result of the first detection read is not tested right after the call")
+		return
+	}
+	good := true
+	var badPos token.Pos
+	w := &core.Walker{G: g, Visit: func(n ast.Node) core.Verdict {
+		if read(n) {
+			return core.Stop
+		}
+		return core.Go
+	}, OnExit: func(b *cfg.Block, _ []token.Pos) {
+		if len(b.Nodes) == 0 {
+			good = false
+			return
+		}
+		rs, isRet := b.Nodes[len(b.Nodes)-1].(*ast.ReturnStmt)
+		if !isRet || len(rs.Results) < 1 || core.ExprStr(rs.Results[0]) != "false" {
+			good = false
+			badPos = b.Nodes[len(b.Nodes)-1].Pos()
+		}
+	}}
+	w.Run(core.Point{B: tr, I: 0})
+	c.R.Checkf(rule, "failed-detection-falls-through-to-the-relay", c.pos(first.Node().Pos()), good,
+		"when the first detection read fails (not DNS, too short, end of stream, timeout) every return reports handled=false: nothing was consumed, so the buffered bytes and the client's half-close must reach the relay%s", func() string {
+			if !good {
+				return " — VIOLATED: handled=true at " + c.pos(badPos) + " drops the buffered bytes and never dials the upstream"
+			}
+			return ""
+		}())
+}
+
+// C06 WINDOW: the sniffing window is one absolute deadline fixed when the
+// sniffer is constructed; nothing assigns Sniffer.deadline afterwards (a
+// deadline re-armed per read slides forward with every chunk and sniffing
+// waits past its timeout).
+func c06WindowFixed(c *Ctx) {
+	const rule = "TIMEOUT"
+	n, bad := 0, ""
+	for _, f := range c.P.FuncsIn("component/sniffing") {
+		info := f.Info()
+		ast.Inspect(f.Body, func(m ast.Node) bool {
+			switch x := m.(type) {
+			case *ast.AssignStmt:
+				for _, l := range x.Lhs {
+					if core.FieldOf(info, l) == "Sniffer.deadline" {
+						n++
+						if bad == "" {
+							bad = fmt.Sprintf("%s assigns %s at %s", f.Name, core.ExprStr(l), c.pos(x.Pos()))
+						}
+					}
+				}
+			case *ast.KeyValueExpr:
+				if id, ok := x.Key.(*ast.Ident); ok && id.Name == "deadline" {
+					if v, ok := info.ObjectOf(id).(*types.Var); ok && v.IsField() {
+						n++ // composite literal in a constructor
+					}
+				}
+			}
+			return true
+		})
+	}
+	c.R.Checkf(rule, "sniff-window-fixed-at-construction", "component/sniffing/sniffer.go", bad == "" && n >= 2,
+		"Sniffer.deadline is set only in the constructors' literals (%d site(s)) and never assigned afterwards%s", n, func() string {
+			if bad != "" {
+				return " — VIOLATED: " + bad + ": the window restarts with every read, so a ClientHello dripped in chunks keeps sniffing (and the connection) waiting past the timeout"
+			}
+			return ""
+		}())
+}
+
+// C06 LOCATOR-BOUNDS: inside LinearLocator.Range the inclusive upper index j
+// is turned into a slice bound the same way at every site that slices the
+// current block (sibling agreement between the in-block fast path and the
+// cross-block tail copy).
+func c06LocatorBounds(c *Ctx) {
+	const rule = "LOCATOR"
+	f := c.fn(rule, "component/sniffing/internal/quicutils", "LinearLocator.Range")
+	if f == nil {
+		return
+	}
+	highs := map[string]int{}
+	lows := map[string]int{}
+	n := 0
+	ast.Inspect(f.Body, func(m ast.Node) bool {
+		sl, ok := m.(*ast.SliceExpr)
+		if !ok || !strings.HasSuffix(core.ExprStr(sl.X), ".baseData") || sl.High == nil {
+			return true
+		}
+		n++
+		highs[nospace(core.ExprStr(sl.High))]++
+		if sl.Low != nil {
+			lows[nospace(core.ExprStr(sl.Low))]++
+		} else {
+			lows["<none>"]++
+		}
+		return true
+	})
+	c.R.Checkf(rule, "block-slices-agree-on-bounds@LinearLocator.Range", c.pos(f.Pos()), n >= 2 && len(highs) == 1 && len(lows) == 1,
+		"the %d bounded slices of the current block in Range use one lower and one upper bound expression (lower %v, upper %v): the tail copy of a range that crosses CRYPTO frames must end at the same inclusive index as the in-block fast path, otherwise a field that straddles a frame boundary loses its last byte", n, keysI(lows), keysI(highs))
+}
+
+func keysI(m map[string]int) []string {
+	var out []string
+	for k := range m {
+		out = append(out, k)
+	}
+	return out
+}
+
+// C07 INDEXSPACE: an upstream index that dns.New accepts is never one that
+// DnsResponseOutboundIndex.IsReserved classifies as reserved (ResponseSelect
+// returns no upstream for a reserved index, and the re-ask then goes to the
+// client's own resolver until the depth bound).
+func c07IndexSpace(c *Ctx) {
+	const rule = "SENTINEL"
+	nf := c.fn(rule, "component/dns", "New")
+	rf := c.fn(rule, "common/consts", "DnsResponseOutboundIndex.IsReserved")
+	if nf == nil || rf == nil {
+		return
+	}
+	accept, ok1 := constInt(c, rule, "common/consts", "DnsResponseOutboundIndex_Accept")
+	if !ok1 {
+		return
+	}
+	// the guard in New
+	var guard ast.Expr
+	var idx string
+	ast.Inspect(nf.Body, func(m ast.Node) bool {
+		if is, ok := m.(*ast.IfStmt); ok && guard == nil && strings.Contains(core.ExprStr(is.Cond), "UserDefinedMax") {
+			guard = is.Cond
+			ast.Inspect(is.Cond, func(k ast.Node) bool {
+				if be, ok := k.(*ast.BinaryExpr); ok {
+					if id, ok := ast.Unparen(be.X).(*ast.Ident); ok && idx == "" {
+						idx = id.Name
+					}
+				}
+				return true
+			})
+		}
+		return true
+	})
+	// the reserved predicate
+	var resExpr ast.Expr
+	var recv string
+	if len(rf.Decl.Recv.List[0].Names) > 0 {
+		recv = rf.Decl.Recv.List[0].Names[0].Name
+	}
+	ast.Inspect(rf.Body, func(m ast.Node) bool {
+		if rs, ok := m.(*ast.ReturnStmt); ok && len(rs.Results) == 1 && resExpr == nil {
+			resExpr = rs.Results[0]
+		}
+		return true
+	})
+	if guard == nil || idx == "" || resExpr == nil || recv == "" {
+		c.R.Unresolved(rule, "dns.New upstream-count guard / IsReserved return expression")
+		return
+	}
+	bad := ""
+	rows := 0
+	for v := accept - 6; v <= accept+3; v++ {
+		rows++
+		gj := &fdt.Job{F: nf}
+		gv := gj.Eval(&fdt.Env{Syms: map[string]constant.Value{idx: constant.MakeInt64(v)}}, guard)
+		if gv == nil {
+			bad = "the upstream-count guard of dns.New cannot be folded for index " + fmt.Sprint(v)
+			break
+		}
+		accepted := !constant.BoolVal(gv)
+		rj := &fdt.Job{F: rf}
+		rv := rj.Eval(&fdt.Env{Syms: map[string]constant.Value{recv: constant.MakeInt64(v)}}, resExpr)
+		reserved := v >= accept // the named constants: the reading of the string form
+		if rv != nil {
+			reserved = constant.BoolVal(rv)
+		}
+		if accepted && reserved && bad == "" {
+			bad = fmt.Sprintf("index %#x is accepted as an upstream by dns.New but classified reserved by IsReserved", v)
+		}
+		if !reserved && v >= accept && bad == "" {
+			bad = fmt.Sprintf("the reserved constant %#x is not classified reserved by IsReserved", v)
+		}
+	}
+	c.R.Checkf(rule, "accepted-upstream-index-is-never-reserved", c.pos(guard.Pos()), bad == "",
+		"over %d indexes around the boundary, every index dns.New accepts for an upstream is classified user-defined by IsReserved, and every named reserved constant is classified reserved%s", rows, func() string {
+			if bad != "" {
+				return " — VIOLATED: " + bad + ": a response rule that routes to that upstream gets no upstream back and re-asks the client's own resolver until the depth bound"
+			}
+			return ""
+		}())
+}
+
+// C07 VERDICT-FROM-MATCHER: the response verdict is the response matcher's
+// result alone: every non-error return of ResponseSelect returns the variable
+// assigned from respMatcher.Match, unmodified (never a literal accept/reject
+// substituted on the way).
+func c07VerdictFromMatcher(c *Ctx) {
+	const rule = "RESP"
+	f := c.fn(rule, "component/dns", "Dns.ResponseSelect")
+	if f == nil {
+		return
+	}
+	info := f.Info()
+	var verdict types.Object
+	writes := 0
+	ast.Inspect(f.Body, func(m ast.Node) bool {
+		as, ok := m.(*ast.AssignStmt)
+		if !ok {
+			return true
+		}
+		if len(as.Rhs) == 1 {
+			if call, ok := as.Rhs[0].(*ast.CallExpr); ok {
+				if _, name, isM := methodCall(call); isM && name == "Match" && len(as.Lhs) >= 1 {
+					if id, ok := as.Lhs[0].(*ast.Ident); ok {
+						verdict = info.ObjectOf(id)
+					}
+					return true
+				}
+			}
+		}
+		for _, l := range as.Lhs {
+			if id, ok := l.(*ast.Ident); ok && verdict != nil && info.ObjectOf(id) == verdict {
+				writes++
+			}
+		}
+		return true
+	})
+	if verdict == nil {
+		c.R.Unresolved(rule, "ResponseSelect: verdict variable assigned from respMatcher.Match")
+		return
+	}
+	n, bad := 0, ""
+	ast.Inspect(f.Body, func(m ast.Node) bool {
+		rs, ok := m.(*ast.ReturnStmt)
+		if !ok || len(rs.Results) != 3 {
+			return true
+		}
+		if core.ExprStr(rs.Results[2]) != "nil" {
+			return true // error return
+		}
+		n++
+		if id, ok := ast.Unparen(rs.Results[0]).(*ast.Ident); !ok || info.ObjectOf(id) != verdict {
+			if bad == "" {
+				bad = fmt.Sprintf("return at %s yields %s", c.pos(rs.Pos()), core.ExprStr(rs.Results[0]))
+			}
+		}
+		return true
+	})
+	c.R.Checkf(rule, "verdict-is-the-matchers-result@ResponseSelect", c.pos(f.Pos()), bad == "" && writes == 0 && n >= 1,
+		"every non-error return of ResponseSelect (%d) returns the index the response matcher produced, and nothing else assigns it (%d other assignment(s))%s", n, writes, func() string {
+			if bad != "" {
+				return " — VIOLATED: " + bad + ": the verdict no longer follows the rule list (e.g. `ip(geoip:private) -> alidns` must re-ask alidns even when alidns produced the polluted answer)"
+			}
+			return ""
+		}())
+}
+
+// C08/C09 KEYTYPE: the cache key is injective in the query type: the
+// pre-computed suffix table maps each type to its own decimal string, and
+// cacheKey never narrows the 16-bit type before using it.
+func cacheKeyTypeInjective(c *Ctx, rule string) {
+	pk := c.P.Pkg("control")
+	v, _ := pk.Types.Scope().Lookup("qtypeStrCache").(*types.Var)
+	if v == nil {
+		c.R.Unresolved(rule, "control.qtypeStrCache")
+		return
+	}
+	// its initialiser
+	var lit *ast.CompositeLit
+	var litInfo *types.Info
+	for i, file := range pk.Syntax {
+		_ = i
+		ast.Inspect(file, func(m ast.Node) bool {
+			vs, ok := m.(*ast.ValueSpec)
+			if !ok {
+				return true
+			}
+			for j, nm := range vs.Names {
+				if pk.TypesInfo.Defs[nm] == v && j < len(vs.Values) {
+					if cl, ok := vs.Values[j].(*ast.CompositeLit); ok {
+						lit, litInfo = cl, pk.TypesInfo
+					}
+				}
+			}
+			return true
+		})
+	}
+	if lit == nil {
+		c.R.Unresolved(rule, "control.qtypeStrCache initialiser")
+		return
+	}
+	bad := ""
+	n := 0
+	for _, el := range lit.Elts {
+		kv, ok := el.(*ast.KeyValueExpr)
+		if !ok {
+			continue
+		}
+		ktv, ok1 := litInfo.Types[kv.Key]
+		vtv, ok2 := litInfo.Types[kv.Value]
+		if !ok1 || !ok2 || ktv.Value == nil || vtv.Value == nil {
+			bad = "non-constant entry " + core.ExprStr(kv)
+			break
+		}
+		n++
+		k, _ := constant.Int64Val(constant.ToInt(ktv.Value))
+		if constant.StringVal(vtv.Value) != fmt.Sprint(k) && bad == "" {
+			bad = fmt.Sprintf("entry %s maps type %d to suffix %s", core.ExprStr(kv.Key), k, vtv.Value.ExactString())
+		}
+	}
+	c.R.Checkf(rule, "qtype-suffix-table-is-the-decimal-type", c.P.Pos(lit.Pos()), bad == "" && n > 0,
+		"each of the %d pre-computed cache-key suffixes is the decimal value of its own query type%s", n, func() string {
+			if bad != "" {
+				return " — VIOLATED: " + bad + ": two query types then share a cache (and singleflight) key and one is served the other's answer"
+			}
+			return ""
+		}())
+	if f := c.fn(rule, "control", "DnsController.cacheKey"); f != nil {
+		info := f.Info()
+		var qt types.Object
+		for _, fl := range f.Decl.Type.Params.List {
+			for _, nm := range fl.Names {
+				if bt, ok := info.TypeOf(nm).Underlying().(*types.Basic); ok && bt.Kind() == types.Uint16 {
+					qt = info.ObjectOf(nm)
+				}
+			}
+		}
+		narrow := ""
+		ast.Inspect(f.Body, func(m ast.Node) bool {
+			call, ok := m.(*ast.CallExpr)
+			if !ok || len(call.Args) != 1 {
+				return true
+			}
+			tv, ok := info.Types[call.Fun]
+			if !ok || !tv.IsType() {
+				return true
+			}
+			bt, ok := tv.Type.Underlying().(*types.Basic)
+			if !ok || bt.Info()&types.IsInteger == 0 {
+				return true
+			}
+			uses := false
+			ast.Inspect(call.Args[0], func(k ast.Node) bool {
+				if id, ok := k.(*ast.Ident); ok && info.ObjectOf(id) == qt {
+					uses = true
+				}
+				return true
+			})
+			if uses && types.SizesFor("gc", "amd64").Sizeof(bt) < 2 && narrow == "" {
+				narrow = core.ExprStr(call)
+			}
+			return true
+		})
+		c.R.Checkf(rule, "cache-key-uses-the-full-qtype@cacheKey", c.pos(f.Pos()), qt != nil && narrow == "", "cacheKey never narrows the 16-bit query type%s", func() string {
+			if narrow != "" {
+				return " — VIOLATED: " + narrow + ": CAA (257) gets the key of A (1), and a CAA client is served the cached A answer"
+			}
+			return ""
+		}())
+	}
+}
+
+// C08 LRU-WRITERS: the last-access stamp is written only where an entry is
+// actually served (the lookup) or copied field by field (the clones).
+func c08LruWriters(c *Ctx) {
+	const rule = "LRU"
+	n, bad := 0, ""
+	for _, f := range c.P.FuncsIn("control") {
+		info := f.Info()
+		core.EachCall(f.Body, core.Deep, func(call *ast.CallExpr) {
+			recv, name, ok := methodCall(call)
+			if !ok || (name != "Store" && name != "Swap" && name != "CompareAndSwap" && name != "Add") || core.FieldOf(info, recv) != "DnsCache.lastAccessNano" {
+				return
+			}
+			n++
+			short := strings.TrimPrefix(f.Name, "control.")
+			okSite := strings.HasPrefix(short, "DnsController.LookupDnsRespCache") || strings.HasPrefix(short, "DnsCache.Clone")
+			if !okSite && bad == "" {
+				bad = fmt.Sprintf("%s writes the last-access stamp at %s", short, c.pos(call.Pos()))
+			}
+		})
+	}
+	c.R.Checkf(rule, "last-access-stamp-writers", "control/dns_control.go", bad == "" && n >= 2,
+		"DnsCache.lastAccessNano is written only by the serving lookup and by the clones that copy it (%d site(s))%s", n, func() string {
+			if bad != "" {
+				return " — VIOLATED: " + bad + ": stamping entries that were not used flattens the access order, and the size-limit pass evicts arbitrary entries instead of the least recently used"
+			}
+			return ""
+		}())
+}
